@@ -92,7 +92,7 @@ class Check(PropertyCheck):
 
     def rule(self):
         return ("inputs with hostile characters (C0/C1 controls, U+FFFE/FFFF, markup, astral, CJK) in the quoted, "
-                "plain and legend channels, all include_* switches, pretty and compressed; non-trivial = input "
+                "plain, legend and settings-string channels, all include_* switches, pretty and compressed; non-trivial = input "
                 "carrying at least one character needing escaping or dropping, distinct by input")
 
     def cases(self, n):
@@ -125,11 +125,26 @@ class Check(PropertyCheck):
         self.count("backend_cases", len(cases))
         return dis
 
-    def oracle(self, cs):
+    def oracle(self, cs, forced=None):
         lines = []
+        setvals = {}
         for i, (t, _) in enumerate(cs):
             sw = i % 8
-            tok = "b=%d,s=%d,d=%d" % (sw & 1, 1 if (sw & 2 or any(e[0] == "rule" for e in cs[i][1])) else 0, (sw >> 2) & 1)
+            styles = 1 if (sw & 2 or any(e[0] == "rule" for e in cs[i][1])) else 0
+            tok = "b=%d,s=%d,d=%d" % (sw & 1, styles, (sw >> 2) & 1)
+            if forced and i in forced:
+                styles = 1
+                tok = "b=1,s=1,d=1,%s=%s" % (forced[i][0], hx(forced[i][1]))
+                setvals[i] = forced[i]
+            elif i % 3 == 0:
+                # the settings strings are input too: they are written into the style sheet
+                key = self.rng.choice(["ff", "fill", "bg", "sc"])
+                val = "".join(hostile_char(self.rng) for _ in range(self.rng.range(1, 8))).replace("\n", " ").replace("\r", " ")
+                if self.rng.chance(1, 4):
+                    val = self.rng.choice(["Fira & Code", "a<b", "white}</style><g><style>a{", "x]]>y", "'q'", '"dq"'])
+                tok += ",%s=%s" % (key, hx(val))
+                if styles:
+                    setvals[i] = (key, val)
             lines.append("%dp settings %s %s" % (i, tok, hx(t)))
             lines.append("%dc compressed default %s" % (i, hx(t)))
         res = common.run_impl("lib", lines)
@@ -183,9 +198,15 @@ class Check(PropertyCheck):
                                          {"output_tail": svg[-300:]}, cls="xml-not-wellformed"))
                     break
                 if wf.get("%d%s" % (i, suffix)) != "1":
-                    fails.append(Failure("output not accepted by the verified XML recognizer (Spec/Xml.lean)", case,
-                                         {"output_tail": svg[-300:]}, cls="xml-not-wellformed"))
-                    break
+                    # expat accepts it, the model's recognizer (a subset of XML, proved to accept everything the model
+                    # writes) does not: the implementation writes something the model cannot write. The property
+                    # holds on this input; what broke is the tie between model and code.
+                    if not hasattr(self, "late_disagreements"):
+                        self.late_disagreements = []
+                    if len(self.late_disagreements) < 20:
+                        self.late_disagreements.append(Disagreement(
+                            "output outside the XML subset of the verified recognizer (Spec/Xml.lean)", case,
+                            "accepted by the recognizer", svg[-300:]))
                 if root.tag != "svg" or root.attrs.get("xmlns") != SVG_NS:
                     fails.append(Failure("root is not svg in the SVG namespace", case))
                     break
@@ -194,6 +215,12 @@ class Check(PropertyCheck):
                     break
                 texts = [e.text for e in all_texts(root)]
                 bad = None
+                if suffix == "p" and i in setvals:
+                    st = [c for c in root.children if c.tag == "style"]
+                    want = "".join(c for c in setvals[i][1] if xml_ok(c))
+                    if len([c for c in root.children if c.tag == "style"]) != 1 or want not in st[0].text:
+                        bad = ("a settings string (%s) is not read back from the style sheet" % setvals[i][0], want)
+                    case = dict(case, settings_key=setvals[i][0], settings_val=setvals[i][1])
                 for e in exp:
                     if e[0] == "quoted":
                         want = "".join(c for c in e[1] if xml_ok(c) and c != "\0")
@@ -223,4 +250,5 @@ class Check(PropertyCheck):
         return fails
 
     def replay_case(self, case):
-        return self.oracle([(case["input"], [])])
+        forced = {0: (case["settings_key"], case["settings_val"])} if "settings_key" in case else None
+        return self.oracle([(case["input"], [])], forced=forced)
